@@ -31,6 +31,19 @@ def alphabet(transport: str):
     return COMMON + (UDP_ONLY if transport == 'udp' else TCP_ONLY)
 
 
+HARNESS_BUGS = []      # (per process) what went wrong in the harness's own scripted environment
+
+
+class HarnessBug(SystemExit):
+    """An error in the harness's own scripted environment, raised so that nothing between the socket model and the
+    check's top level can take it for a fault of the network (asyncio transports re-raise SystemExit) - and recorded in
+    HARNESS_BUGS, because the harness's own 'whatever the call raises is an observation' wrappers would swallow it."""
+
+    def __init__(self, msg):
+        super().__init__(msg)
+        HARNESS_BUGS.append(msg)
+
+
 class ScriptPeer:
     def __init__(self, transport: str, T: float, ctx=None, letters=None, conn_letters=None, unit=None,
                  payload_fn=tag_payload, exc_code=2):
@@ -243,7 +256,15 @@ class PlanPeer:
         k = len(self.sent)
         now = self.kern.now
         self.sent.append((now, sock.fd, data, None))
-        for dt, item in self.plan(k, data, now):
+        try:
+            answers = list(self.plan(k, data, now))
+        except OSError:
+            raise
+        except Exception as e:  # noqa: BLE001
+            # the plan is harness code: an exception in it must not look like a network fault to the library (the
+            # transports swallow everything but SystemExit / KeyboardInterrupt)
+            raise HarnessBug(f'scripted inverter raised {type(e).__name__}: {e}') from e
+        for dt, item in answers:
             if isinstance(item, BaseException):
                 raise item
             self.kern.at(now + dt, sock, item)
